@@ -1,2 +1,8 @@
+//! cfkit — independent JVM class-file parser / assembler and the *class facts* format (see FACTS.md).
 pub mod facts;
 pub mod opcodes;
+pub mod parse;
+pub mod asm;
+pub mod refs;
+pub mod corpus;
+pub mod samples;
